@@ -139,6 +139,9 @@ type c06env struct {
 
 type C06Marker struct{ N int }
 
+// c06nobody is a peer nobody listens as: a request sent to it fails
+var c06nobody = network.NewServerIdentity(fix.Suite.Point().Mul(fix.Suite.Scalar().SetInt64(434343), nil), network.NewLocalAddress("127.0.0.1:2998"))
+
 var (
 	c06once   sync.Once
 	c06theEnv *c06env
@@ -827,6 +830,58 @@ func c06exec(c *h.Ctx, cs *h.Case) {
 				}
 				checkStore(before, false, op)
 				obs = showStore()
+			case "h.reqsend", "h.reqfail":
+				// a protocol message for a tree this server does not know arrives from a peer: the
+				// overlay parks it and asks that peer for the tree (TransmitMsg → requestTree). With
+				// h.reqfail the peer cannot be reached, so the request is withdrawn again.
+				if len(tk) != 3 {
+					return
+				}
+				id, ok := atoi(tk[2])
+				if !ok {
+					return
+				}
+				history()
+				before := snapshot()
+				real := cc.realTid(id)
+				old, was := before[real]
+				if was && old != nil {
+					obs = "out[] " + showStore() // the tree is known: nothing is requested
+					return
+				}
+				from := env.peerSI
+				if tk[1] == "h.reqfail" {
+					from = c06nobody
+				}
+				tok := &onet.Token{TreeID: real, RosterID: cc.realRid(1), ProtoID: onet.ProtocolNameToID(fix.ProtoName),
+					RoundID: onet.RoundID(uuid.NewSHA1(uuid.NameSpaceOID, []byte("c06-round")))}
+				e, err := fix.Envelope(from, tok, tok, fix.Payload(3, 1))
+				if err != nil {
+					obs = "err:codec"
+					return
+				}
+				if !was {
+					everReq[real] = true
+				}
+				ovl.Process(e)
+				ovl.VerifC06DropParked() // the parked message itself is property C01's business
+				got, ok2 := env.replies()
+				if !ok2 {
+					obs = "hang"
+					cs.Fail("no-marker", "the server did not deliver the marker message to the peer after "+op)
+					return
+				}
+				var outs []string
+				for _, g := range got {
+					if m, ok := g.Msg.(*onet.RequestTree); ok {
+						outs = append(outs, fmt.Sprintf("reqtree(%d)", cc.tidLabel[m.TreeID]))
+					}
+				}
+				if tk[1] == "h.reqfail" && !was && ovl.VerifTreeState(real) != "absent" {
+					cs.Fail("request-marker-survives-failed-send", "the tree request could not be sent, yet the id stays marked as requested: a tree pushed by any peer would now be stored — "+op)
+				}
+				checkStore(before, false, op)
+				obs = "out[" + strings.Join(outs, " ") + "] " + showStore()
 			case "h.register", "h.instance":
 				if len(tk) != 3 {
 					return
@@ -1298,7 +1353,7 @@ func c06gen(c *h.Ctx, yield func(*h.Case)) {
 	for i := 0; i < c.Pick(450, 6000); i++ {
 		ops, _, ts := world()
 		t1, t2, t4, t5 := ts[0], ts[1], ts[3], ts[4]
-		switch i % 10 {
+		switch i % 11 {
 		case 0: // solicited, then repeated, then a different tree under the same id
 			ops = append(ops, "c06 h.request 1", resp(t1, 1, 1), resp(t1, 1, 1), resp(t5, 1, 1), "c06 h.msg reqtree 1 1", "c06 h.msg reqtree 1 0")
 			emit("history solicited", ops)
@@ -1332,6 +1387,10 @@ func c06gen(c *h.Ctx, yield func(*h.Case)) {
 			ops = append(ops, "c06 h.request 1", "c06 h.msg tm "+parked, resp(t1, 1, 1), "c06 h.msg roster 1", "c06 h.msg reqtree 1 1",
 				"c06 h.request 2", "c06 h.msg tm "+t2.desc(2, 1), "c06 h.msg tm "+t5.desc(2, 1), "c06 h.msg roster 1", "c06 h.msg roster 1", "c06 h.msg reqtree 2 1")
 			emit("history parked-then-response", ops)
+		case 9: // the real request path: a request that cannot be sent leaves nothing behind
+			ops = append(ops, "c06 h.reqfail 1", resp(t1, 1, 1), "c06 h.msg tm "+t1.desc(1, 1), "c06 h.reqsend 1", "c06 h.reqfail 1", "c06 h.reqsend 1",
+				resp(t1, 1, 1), "c06 h.reqfail 1", "c06 h.reqsend 1", "c06 h.reqfail 2", "c06 h.msg roster 1", resp(t2, 2, 1), "c06 h.msg reqtree 2 1")
+			emit("history failed-request", ops)
 		case 7: // failed request, expiry
 			ops = append(ops, "c06 h.request 1", "c06 h.unrequest 1", resp(t1, 1, 1), "c06 h.request 1", resp(t1, 1, 1), "c06 h.unrequest 1", "c06 h.expire 1", resp(t1, 1, 1), "c06 h.msg reqtree 1 1")
 			emit("history unrequest-expire", ops)
@@ -1339,7 +1398,11 @@ func c06gen(c *h.Ctx, yield func(*h.Case)) {
 			var alpha []string
 			for _, t := range ts[:4] {
 				alpha = append(alpha, fmt.Sprintf("c06 h.request %d", t.tid), resp(t, t.tid, t.ro.label), "c06 h.msg tm "+t.desc(t.tid, t.ro.id),
-					fmt.Sprintf("c06 h.msg reqtree %d %d", t.tid, r.Intn(2)), fmt.Sprintf("c06 h.unrequest %d", t.tid))
+					fmt.Sprintf("c06 h.msg reqtree %d %d", t.tid, r.Intn(2)), fmt.Sprintf("c06 h.unrequest %d", t.tid),
+					fmt.Sprintf("c06 h.reqsend %d", t.tid))
+				if t.tid == 1 {
+					alpha = append(alpha, "c06 h.reqfail 1") // a failing send costs 5 connection attempts (100 ms)
+				}
 			}
 			alpha = append(alpha, resp(t5, 1, 1), "c06 h.msg tm "+t5.desc(1, 1), "c06 h.msg tm "+t5.desc(1, 1), "c06 h.request 1", "c06 h.msg roster 1", "c06 h.msg roster 1", "c06 h.msg roster 2", "c06 h.msg roster 3",
 				"c06 h.msg reqroster 1", "c06 h.msg reqroster 2", "c06 h.register 3", "c06 h.instance 2", resp(t2, 2, 3), resp(t1, 1, 2))
@@ -1384,5 +1447,5 @@ func c06gen(c *h.Ctx, yield func(*h.Case)) {
 	}
 	// --- malformed lines -------------------------------------------------------------------------
 	emit("malformed-lines", []string{"c06 roster 1 1 0", "c06 tree 1 1 1 0/0:0", "c06 roster 1 1 0 3/4,5/6", "c06 tree 1 1 1 0/3:1", "c06 tree 1 1 1 2/3:0",
-		"c06 marshal-rt 9 1", "c06 maketree T1,R1,1 1", "c06 maketree X1,R1,1;3/3:0 1", "c06 h.msg tm T1,R1,1;3/3:1", "c06 h.msg frob 1", "c06 h.request x", "c06 frob"})
+		"c06 marshal-rt 9 1", "c06 maketree T1,R1,1 1", "c06 maketree X1,R1,1;3/3:0 1", "c06 h.msg tm T1,R1,1;3/3:1", "c06 h.msg frob 1", "c06 h.request x", "c06 h.reqfail", "c06 h.reqsend y", "c06 frob"})
 }
